@@ -92,6 +92,8 @@ func hostMutations(r *rand.Rand, c route.Case) []route.Req {
 		muts := []string{
 			host, host + "x", host + ".", host + "..", host + ".org", host + ".evil.org", "x" + host, "x." + host, host + ":80", host + ".:8443",
 			host[:len(host)-1], strings.ToUpper(host[:1]) + host[1:], host + "-", "." + host, host + ":", host + ".a",
+			// more than one colon outside brackets: whatever is taken for the port, what is left is not the pattern
+			host + ":80:443", host + "::80", host + ":evil.org:80", host + ".:1:2", host + ":x:1",
 		}
 		if k := strings.IndexByte(host, '.'); k >= 0 {
 			muts = append(muts, host[k+1:], host[:k], host[:k]+".."+host[k+1:], host[:k]+host[k+1:])
@@ -235,6 +237,17 @@ func check(run *kit.Run, c route.Case) {
 					if !hostMatches(ph, eff) {
 						run.Violate("host-not-whole|"+id, fmt.Sprintf("hostname route selected for a Host that is not label-for-label its pattern\nroutes: %s\nrequest: %s\neffective host: %q\nfox: %s",
 							c.RoutesString(), q, eff, got), c)
+					}
+				} else if !strings.ContainsAny(q.Host, "[]") && strings.Count(q.Host, ":") >= 2 {
+					// several colons outside brackets: which part is "the port" is not specified, but whichever reading is
+					// taken - nothing removed, or the part after the last colon removed - the rest must be the pattern
+					// label for label; a pattern that matches neither was matched against a mere prefix of the Host
+					whole := strings.TrimSuffix(q.Host, ".")
+					cut := strings.TrimSuffix(q.Host[:strings.LastIndexByte(q.Host, ':')], ".")
+					run.Count("hostname_route_selected_for_a_multi_colon_host", 1)
+					if !hostMatches(ph, whole) && !hostMatches(ph, cut) {
+						run.Violate("host-not-whole|"+id, fmt.Sprintf("hostname route selected for a Host with several colons of which the pattern is only a prefix (neither the Host as it stands nor the Host without its last colon part equals the pattern label for label)\nroutes: %s\nrequest: %s\nfox: %s",
+							c.RoutesString(), q, got), c)
 					}
 				} else {
 					run.Count("hostname_route_selected_unspecified_host", 1)
